@@ -906,6 +906,19 @@ func execC29(c c29Case) vkit.Result {
 		if len(e.Acceptable) > 0 {
 			res.Class("winner:" + e.Acceptable[0].Src)
 		}
+		own, shared := false, false
+		for _, c := range e.All {
+			if strings.HasPrefix(c.Src, "flag") || strings.HasPrefix(c.Src, "env") {
+				if strings.Contains(c.Src, "-shared") {
+					shared = true
+				} else {
+					own = true
+				}
+			}
+		}
+		if own && shared {
+			res.Class("chain:own+shared-both-given:" + p)
+		}
 		if e.HasRef {
 			res.Class("winner-has-ref")
 			if e.S.Class == "map" || strings.HasPrefix(e.S.Class, "list:") {
